@@ -98,6 +98,58 @@ def case(ctx: Ctx, key=None, nontrivial: bool = True, n: int = 1):
     ctx.count(("nontrivial-cases:" if nontrivial else "trivial-cases:") + fam)
 
 
+def model_batch(ctx: Ctx, d, lines):
+    """driver replies with the branch tags (" #tag tag ...") stripped and counted as model-branch:<tag>"""
+    out = []
+    for rep in d.batch(lines):
+        if " #" in rep:
+            rep, tags = rep.split(" #", 1)
+            for t in tags.split():
+                ctx.count("model-branch:" + t)
+        out.append(rep)
+    return out
+
+
+# Branch classes of the hand-written model definitions (and of the implementation-side generators) that every full run must
+# reach at least once.  A class at zero makes the run end with exit 2 (infrastructure), never with a pass.
+REQUIRED_MODEL_BRANCHES = [
+    "bucket-add:not-owned", "bucket-add:accepted", "bucket-add:refused-full", "bucket-split:refused-not-full", "bucket-split:done",
+    "add:update", "add:insert-room", "add:evict-bad", "add:evict-slow", "add:evict-bad+slow", "add:split",
+    "add:refuse-off-own-path", "add:one-split", "add:repeated-split", "getbucket:root-fallback", "getbucket:lpi",
+    "closest:single-bucket", "closest:first-level", "closest:inner-level", "closest:root-reached", "closest:cut-to-k",
+    "closest:fewer-than-k", "closest:no-exclude", "closest:exclude-stored", "closest:exclude-absent",
+    "rmbad:nothing-removed", "rmbad:some-removed", "setnode:hit", "setnode:miss",
+    "refresh:none-stale", "refresh:one-stale", "refresh:several-stale",
+    "genid:no-suffix", "genid:in-range", "genid:overflow-raises", "genid:overflow-outside",
+    "status:rule0", "status:rule1", "status:default",
+    "trie-set:overwrite", "trie-set:new-node", "trie-set:value-on-inner-node",
+    "trie-del:absent", "trie-del:last-key(keyerror-quirk)", "trie-del:pruned", "trie-del:kept-inner-node",
+    "trie-lpi:nothing", "trie-lpi:falsy-value", "trie-lpi:direct-child", "trie-lpi:deeper",
+]
+REQUIRED_IMPL_CLASSES = [
+    "readd:object-currently-stored", "readd:object-never-stored", "readd:object-removed,old-bucket-still-in-tree",
+    "readd:object-removed,old-bucket-was-split", "add:same-public-key-as-stored-node",
+    "evicted:bad", "evicted:slow", "full-bucket:no-eviction",
+    "closest-walk:whole-table-needed", "closest-walk:own-bucket-suffices", "closest-walk:stops-at-an-inner-level",
+    "closest-exclude:stored-object-itself", "closest-exclude:fresh-object-with-that-id", "closest-k:default",
+    "refresh-class:one", "refresh-class:few", "refresh-class:all", "refresh-class:none",
+    "genid-pipeline-vs-cpython:overflow", "genid-pipeline-vs-cpython:in-range", "real-node-id:ipv4", "real-node-id:ipv6",
+    "rtt:zero", "rtt:sub-millisecond", "rtt:sub-second", "rtt:one-second-or-more", "profile:deep", "profile:clustered",
+]
+
+
+def require_coverage(ctx: Ctx):
+    """called at the end of a full, failure-free run with the model available"""
+    missing = [b for b in REQUIRED_MODEL_BRANCHES if not ctx.counts.get("model-branch:" + b)]
+    missing += [c for c in REQUIRED_IMPL_CLASSES if not ctx.counts.get(c)]
+    deep = [k for k in ctx.counts if k.startswith("max-depth:") and int(k.split(":")[1].rstrip("+")) >= 100]
+    if not deep:
+        missing.append("max-depth >= 100")
+    ctx.extra["required_branch_classes"] = {"listed": len(REQUIRED_MODEL_BRANCHES) + len(REQUIRED_IMPL_CLASSES) + 1, "missing": missing}
+    if missing:
+        raise InfraError("coverage lost: these listed branch / input classes were not reached in this run: " + ", ".join(missing))
+
+
 def bits(x: int, n: int = W) -> str:
     return format(x, "0%db" % n) if n else ""
 
@@ -918,7 +970,13 @@ def gen_scenario(ctx: Ctx, rng, n_ops: int, profile: str):
             nb = len(im.keys())
             for j in sorted({0, nb // 2, nb - 1}):
                 do(("refresh", 1 << (j % 64), rng.getrandbits(160), False))
+                ctx.count("refresh-class:one")
+            do(("refresh", (1 << 0) | (1 << ((nb - 1) % 64)), rng.getrandbits(160), True))
+            ctx.count("refresh-class:few")
+            do(("refresh", 0, rng.getrandbits(160), False))
+            ctx.count("refresh-class:none")
             do(("refresh", (1 << 64) - 1, rng.getrandbits(160), False))
+            ctx.count("refresh-class:all")
             # queries that start at the deepest bucket (target = own id and its neighbours) and have to climb
             for k, t in ((20, me), (20, me ^ 1), (12, me ^ 3), (len(im.all_nodes()) or 1, me ^ 5)):
                 do(("closest", t, k, None))
@@ -979,7 +1037,7 @@ def compare(ctx: Ctx, lines, replies, meta):
     if not ctx.model_ok:
         return
     d = ctx.driver()
-    model = d.batch(lines)
+    model = model_batch(ctx, d, lines)
     for i, (ln, a, b) in enumerate(zip(lines, model, replies)):
         if a != b:
             ctx.disagree(f"op {i - 1} `{ln[:120]}`: model {a[:200]!r} != implementation {b[:200]!r}",
@@ -1046,7 +1104,7 @@ def small_scope(ctx: Ctx, w: int, length: int, m: int, mes, use_model=True):
             all_replies += replies
     if use_model and ctx.model_ok:
         d = ctx.driver()
-        model = d.batch(all_lines)
+        model = model_batch(ctx, d, all_lines)
         for i, (ln, a, b) in enumerate(zip(all_lines, model, all_replies)):
             if a != b:
                 ctx.disagree(f"small scope w={w} m={m}: `{ln[:100]}`: model {a[:200]!r} != implementation {b[:200]!r}",
@@ -1199,7 +1257,7 @@ def trie_random(ctx: Ctx, n_seq: int, use_model=True):
         case(ctx, ("trie", tuple(ops)), nontrivial=len(ref) > 1, n=len(ops))
     if use_model and ctx.model_ok:
         d = ctx.driver()
-        model = d.batch(lines)
+        model = model_batch(ctx, d, lines)
         for i, (ln, a, b) in enumerate(zip(lines, model, replies)):
             if not same_reply(a, b, i in present_del):
                 j = max(k for k in range(i + 1) if lines[k] == "t.new")
@@ -1266,7 +1324,7 @@ def trie_exhaustive(ctx: Ctx, L: int, use_model=True):
     ctx.count(f"trie-exhaustive-L{L}-tries", 1 << len(keys))
     if use_model and ctx.model_ok:
         d = ctx.driver()
-        model = d.batch(lines)
+        model = model_batch(ctx, d, lines)
         for i, (ln, a, b) in enumerate(zip(lines, model, replies)):
             if not same_reply(a, b, i in present_del):
                 j = max(k for k in range(i + 1) if lines[k] == "t.new")
@@ -1353,13 +1411,13 @@ def genid_sweep(ctx: Ctx, use_model=True, factor=4):
             ctx.count("genid-pipeline-vs-cpython:" + ("in-range" if r < (1 << n) else "overflow"))
     if use_model and ctx.model_ok:
         d = ctx.driver()
-        model = d.batch(lines)
+        model = model_batch(ctx, d, lines)
         for ln, a, b_ in zip(lines, model, replies):
             if a != b_:
                 ctx.disagree(f"generate_id: `{ln[:80]}`: model {a[:170]!r} != implementation {b_[:170]!r}",
                              {"kind": "genid-lines", "line": ln, "model": a, "impl": b_})
                 break
-        model = d.batch(ref_lines)
+        model = model_batch(ctx, d, ref_lines)
         for ln, a, b_ in zip(ref_lines, model, ref_replies):
             if a != b_:
                 ctx.disagree(f"generate_id pipeline: `{ln[:80]}`: model {a[:170]!r} != CPython format/unhexlify {b_[:170]!r}",
@@ -1407,7 +1465,7 @@ def status_grid(ctx: Ctx, use_model=True):
             case(ctx, ("status", failed, c), nontrivial=failed >= DEAD_AFTER and is_recent(c))
             ctx.count("status-grid:%s" % st)
     if use_model and ctx.model_ok:
-        model = ctx.driver().batch(lines)
+        model = model_batch(ctx, ctx.driver(), lines)
         for ln, a, b in zip(lines, model, replies):
             if a != b:
                 ctx.disagree(f"Node.status: `{ln}`: model {a!r} != implementation {b!r}", {"kind": "status-line", "line": ln})
@@ -1512,6 +1570,71 @@ def refresh_two_tables(ctx: Ctx, n: int):
                             rec)
 
 
+def bucket_direct(ctx: Ctx, n: int, use_model=True):
+    """the Bucket class on its own (branches the routing table never reaches: add of an id the bucket does not own, split of a
+    bucket that is not full), plus add sequences with all eviction kinds at small capacities"""
+    from ipv8.dht import routing
+    install_clock(routing)
+    rng = ctx.rng
+    lines, replies = [], []
+
+    def show(b):
+        BAD = routing.NODE_STATUS_BAD
+        ns = ",".join(f"{x.tag}.{x.address[1]}.{1 if x.status == BAD else 0}.{round(x.rtt * UNIT)}"
+                      for x in sorted(b.nodes.values(), key=lambda x: x.tag))
+        return f"{pb(b.prefix_id)}/{getattr(b, 'max_size', '?')}={ns}"
+    for s in range(n):
+        L = rng.randrange(0, 6)
+        prefix = bits(rng.getrandbits(L), L) if L else ""
+        cap = rng.choice([1, 2, 3, 8])
+        b = routing.Bucket(prefix, cap)
+        lines.append(f"b.new {pb(prefix)} {cap}")
+        replies.append("ok")
+        for i in range(rng.randrange(1, 3 * cap + 3)):
+            inside = rng.random() < 0.8
+            head = prefix if inside else bits(rng.getrandbits(max(L, 1)), max(L, 1))
+            ident = int((head + bits(rng.getrandbits(W), W))[:W], 2)
+            if i and rng.random() < 0.15 and b.nodes:
+                ident = int.from_bytes(rng.choice(list(b.nodes)), "big")
+            nd = node_cls()(1000 * s + i, ident, 1 + i)
+            nd.failed = rng.choice([0, 0, 1, 2])
+            rtt = rng.choice(RTTS)
+            nd.rtt = rtt / float(UNIT)
+            c = rng.choice([0, 1, 3])
+            script_contact(routing, nd, c)
+            try:
+                ok = b.add(nd)
+            except Exception as e:
+                if raised_by_harness(e):
+                    raise
+                ctx.oracle_fail("Bucket.add:raises", f"Bucket({prefix!r}, {cap}).add raised {type(e).__name__}: {e}", {"kind": "bucket-direct", "seed": ctx.seed})
+                break
+            ib = bits(ident)
+            if ok and not ib.startswith(prefix):
+                ctx.oracle_fail("Bucket.add:node-outside-owner", f"Bucket({prefix!r}).add accepted id {ib[:16]}..", {"kind": "bucket-direct", "seed": ctx.seed})
+            if len(b.nodes) > cap:
+                ctx.oracle_fail("Bucket.add:over-capacity", f"Bucket({prefix!r}, {cap}) holds {len(b.nodes)} nodes", {"kind": "bucket-direct", "seed": ctx.seed})
+            lines.append(f"b.add {ib} {nd.failed} {1 if nd.v_recent else 0} {rtt} {1 + i} {nd.tag}")
+            replies.append(("true " if ok else "false ") + show(b))
+            if rng.random() < 0.25:
+                sp = b.split()
+                lines.append("b.split")
+                replies.append("none" if sp is None else show(sp[0]) + " " + show(sp[1]))
+                if sp is not None:
+                    for j, ch in enumerate(sp):
+                        for x in ch.nodes.values():
+                            if not bits(int.from_bytes(x.id, "big")).startswith(prefix + str(j)) or len(ch.nodes) > cap:
+                                ctx.oracle_fail("Bucket.split:wrong-children", f"split of Bucket({prefix!r}, {cap}) misplaces a node or overfills a child",
+                                                {"kind": "bucket-direct", "seed": ctx.seed})
+        case(ctx, ("bucket-direct", s, prefix, cap), nontrivial=cap < 8, n=len(lines))
+    if use_model and ctx.model_ok:
+        model = model_batch(ctx, ctx.driver(), lines)
+        for ln, a, b_ in zip(lines, model, replies):
+            if a != b_:
+                ctx.disagree(f"Bucket (direct): `{ln[:90]}`: model {a[:160]!r} != implementation {b_[:160]!r}", {"kind": "bucket-direct", "line": ln})
+                break
+
+
 def real_node_ids(ctx: Ctx):
     """the hypothesis of every theorem - identifiers have the table's width - checked for the code's own identifier function:
     real Node objects (no scripted id; IPv4 and IPv6 addresses) have W/8-byte ids and a table filled with them stays valid"""
@@ -1556,11 +1679,14 @@ def run(ctx: Ctx):
     if ctx.thorough():
         small_scope(ctx, 2, 5, 1, [0, 3 << (W - 2), (1 << W) - 1])
         small_scope(ctx, 4, 3, 3, [0, 9 << (W - 4)])
+    bucket_direct(ctx, ctx.scale(60, 1500))
     real_node_ids(ctx)
     refresh_two_tables(ctx, ctx.scale(6, 60))
     deep_walk_scenarios(ctx, ctx.scale(2, 30))
     routing_scenarios(ctx, ctx.scale(24, 300), [60, 150, 150, 300, 400, 700])
     routing_scenarios(ctx, ctx.scale(1, 10), [2000, 2600])
+    if ctx.model_ok and not ctx.failures and not ctx.disagreements:
+        require_coverage(ctx)
 
 
 def search(ctx: Ctx, reason: str):
